@@ -247,6 +247,7 @@ def check_C02(ctx):
     _enc_phase(ctx, 'aead')
     _perm_stream(ctx)
     _kat(ctx, ['TinyJAMBU-128.txt', 'TinyJAMBU-192.txt', 'TinyJAMBU-256.txt'])
+    _spec_kat(ctx, ['TinyJAMBU-128.txt', 'TinyJAMBU-192.txt', 'TinyJAMBU-256.txt'], 97 if ctx.tier == 'quick' else 3)
     if ctx.tier == 'thorough': _matrix(ctx, 'aead')
 
 def _perm_stream(ctx, n=None):
@@ -380,6 +381,7 @@ def check_C09(ctx):
     ctx.lean(); ctx.build()
     cases, lines, impl, model = _enc_phase(ctx, 'siv')
     _kat(ctx, ['TinyJAMBU-128-SIV.txt', 'TinyJAMBU-192-SIV.txt', 'TinyJAMBU-256-SIV.txt'])
+    _spec_kat(ctx, ['TinyJAMBU-128-SIV.txt', 'TinyJAMBU-192-SIV.txt', 'TinyJAMBU-256-SIV.txt'], 97 if ctx.tier == 'quick' else 3)
     # pairs under one (key, nonce): determinism, different tags, bodies unrelated; the same pairs in AEAD mode
     # do satisfy body1^body2 = m1^m2 on the common prefix, which shows the test is not vacuous
     g = ctx.g; pl = []; pc = []
@@ -439,6 +441,46 @@ def _hash_msgs(ctx):
     msgs.append(bytes(range(40)))
     return msgs
 
+SPECDRV = os.path.join(LEAN, '.lake', 'build', 'bin', 'tjspec')
+
+def _spec_kat(ctx, files, stride):
+    """TJ.Spec (the bit-serial transcription of the documents) executed on the repository's KAT files and on
+    random inputs against the implementation: validates the specification text the theorems are about"""
+    lines = []; exp = []
+    h = lambda s: s.lower() if s else '-'
+    for f in files:
+        p = os.path.join(REPO, 'test', 'kat', f)
+        if not os.path.exists(p): continue
+        recs = _kat_records(p)
+        recs = recs[::stride] + recs[-2:]
+        for r in recs:
+            if 'HASH' in f: lines.append('hash %s' % h(r['Msg'])); exp.append(h(r['MD']))
+            else:
+                v = re.search(r'(\d+)', f).group(1); op = 'siv.enc' if 'SIV' in f else 'aead.enc'
+                lines.append('%s %s %s %s %s %s 0 0' % (op, v, h(r['Key']), h(r['Nonce']), h(r['AD']), h(r['PT']))); exp.append(h(r['CT']))
+    g = ctx.g
+    for _ in range(12 if ctx.tier == 'quick' else 120):
+        if any('HASH' in f for f in files): lines.append('hash %s' % hx(g.bytes(g.randint(0, 70)))); exp.append(None)
+        else:
+            v = g.choice([128, 192, 256]); op = 'siv.enc' if any('SIV' in f for f in files) else 'aead.enc'
+            lines.append('%s %d %s %s %s %s 0 0' % (op, v, hx(g.bytes(KEYLEN[v])), hx(g.bytes(12)), hx(g.bytes(g.randint(0, 9))), hx(g.bytes(g.randint(0, 23))))); exp.append(None)
+    parts = chunked(lines, 16)
+    def run(ch):
+        r = subprocess.run([SPECDRV], input='\n'.join(ch) + '\n', stdout=subprocess.PIPE, text=True)
+        return r.stdout.split('\n')[:len(ch)]
+    out = [x for p in parallel_map(run, parts) for x in p]
+    impl = run_impl(ctx.meta, 'prod', lines)
+    st = ctx.streams.setdefault('spec-execution', {'evaluations': 0, 'nontrivial': set(), 'diffs': 0})
+    st['evaluations'] += len(lines)
+    for l, o, e, i in zip(lines, out, exp, impl):
+        st['nontrivial'].add(hashlib.md5(l.encode()).digest())
+        want = field(i, 'out') if e is None else e
+        if field(o, 'out') != want:
+            st['diffs'] += 1
+            if e is not None: ctx.broken_proofs.append('TJ.Spec disagrees with the KAT file on: %s' % l[:120])
+            else: ctx.fail('spec-vs-implementation', [l], i, o, 'the implementation differs from the executed specification (TJ.Spec, bit-serial)')
+    ctx.extra_cov['spec_executed_on'] = len(lines)
+
 def check_C10(ctx):
     ctx.lean(); ctx.build()
     msgs = _hash_msgs(ctx)
@@ -446,6 +488,7 @@ def check_C10(ctx):
     for m in msgs: ctx.dist['len%%16=%d' % (len(m) % 16)] += 1
     ctx.corr('hash', lines, ('prod', 'san'), nontrivial=lambda i: msgs[i] != bytes(k & 255 for k in range(len(msgs[i]))) or len(msgs[i]) > 1024)
     _kat(ctx, ['TinyJAMBU-HASH.txt'])
+    _spec_kat(ctx, ['TinyJAMBU-HASH.txt'], 97 if ctx.tier == 'quick' else 7)
     _hashref(ctx)
     if ctx.tier == 'thorough':
         vs = ['gcc-O0', 'gcc-O2', 'gcc-O3', 'clang-O0', 'clang-O2', 'clang-O3']; ctx.build(['prod', 'san'] + vs)
